@@ -1802,9 +1802,15 @@ func (a *Authenticator) setupStreamEncryption(negotiation *SecurityNegotiation) 
 		// Parse the peer's public key and perform ECDH key exchange
 		sharedSecret, err := a.performECDHKeyExchange(clientKey, serverKey, negotiation.IsClient)
 		if err != nil {
-			// If ECDH fails, log but don't fail the entire handshake
+			// A session that negotiated encryption must not continue in the clear because
+			// the peer's key material was missing or malformed.
+			if negotiation.Encryption {
+				return fmt.Errorf("encryption was negotiated but ECDH key exchange failed: %w", err)
+			}
+			// Otherwise log but don't fail the entire handshake
 			// This allows tests with placeholder keys to work
 			slog.Debug(fmt.Sprintf("⚠️  CRYPTO: ECDH key exchange failed (continuing without encryption): %v", err), "destination", "cedar")
+			a.stream.FinalizeDigests()
 			return nil
 		}
 
@@ -1838,6 +1844,15 @@ func (a *Authenticator) setupStreamEncryption(negotiation *SecurityNegotiation) 
 
 		slog.Debug("✅ CRYPTO: Stream encryption enabled with AES-256-GCM", "destination", "cedar")
 		return nil
+	}
+
+	if negotiation.Encryption {
+		// The negotiation decided on encryption (a side requires it, or prefers it with a
+		// common cipher) but no key can be established: the peer sent no ECDH key or the
+		// cipher is not one cedar implements. Reporting success here would hand back an
+		// "encrypted" session whose traffic is in the clear.
+		return fmt.Errorf("encryption was negotiated (%s) but no session key could be established (client key: %t, server key: %t)",
+			negotiation.NegotiatedCrypto, clientKey != "", serverKey != "")
 	}
 
 	slog.Debug("ℹ️  CRYPTO: No encryption configured", "destination", "cedar")
